@@ -186,8 +186,11 @@ static void byteCopyCheck(Tree& tree){
             }
             typename Tree::CellGroupClass viewA(cp);
             typename Tree::CellGroupClass viewB(cp[0].first, cp[0].second, cp[1].first, cp[1].second, cp[2].first, cp[2].second);
+            // deferred initialisation (the form the CUDA callbacks use): built without reading the memory, headers read afterwards
+            typename Tree::CellGroupClass viewC(cp, false); viewC.initMemoryBlockHeader();
+            typename Tree::CellGroupClass viewD(cp[0].first, cp[0].second, cp[1].first, cp[1].second, cp[2].first, cp[2].second, false); viewD.initMemoryBlockHeader();
             ++groups;
-            for(auto* view : {&viewA, &viewB}){
+            for(auto* view : {&viewA, &viewB, &viewC, &viewD}){
                 ++values; if(view->getNbCells() != g.getNbCells() || view->getStartingSpacialIndex() != g.getStartingSpacialIndex() || view->getEndingSpacialIndex() != g.getEndingSpacialIndex()) ++bad;
                 for(long c = 0 ; c < g.getNbCells() ; ++c){
                     ++values; if(view->getCellSpacialIndex(c) != g.getCellSpacialIndex(c)) ++bad;
@@ -211,8 +214,10 @@ static void byteCopyCheck(Tree& tree){
         }
         typename Tree::LeafGroupClass viewA(cp);
         typename Tree::LeafGroupClass viewB(cp[0].first, cp[0].second, cp[1].first, cp[1].second);
+        typename Tree::LeafGroupClass viewC(cp, false); viewC.initMemoryBlockHeader();
+        typename Tree::LeafGroupClass viewD(cp[0].first, cp[0].second, cp[1].first, cp[1].second, false); viewD.initMemoryBlockHeader();
         ++groups;
-        for(auto* view : {&viewA, &viewB}){
+        for(auto* view : {&viewA, &viewB, &viewC, &viewD}){
             ++values; if(view->getNbLeaves() != g.getNbLeaves() || view->getNbParticles() != g.getNbParticles()) ++bad;
             for(long lf = 0 ; lf < g.getNbLeaves() ; ++lf){
                 ++values; if(view->getLeafSpacialIndex(lf) != g.getLeafSpacialIndex(lf) || view->getNbParticlesInLeaf(lf) != g.getNbParticlesInLeaf(lf) || view->getLeafBoxCoord(lf) != g.getLeafBoxCoord(lf)) ++bad;
